@@ -30,6 +30,12 @@ func checkUVRand(c uvCase) *vk.Failure {
 	record("uv-rand", s, c, "rand", true)
 	lo, hi := s.support(p)
 	n := nDraws()
+	if s.discrete {
+		// lattice laws: the CDF is evaluated once per lattice point, so many
+		// more draws cost little and make rejection samplers whose acceptance
+		// rule is slightly off visible (DKW bound 0.006)
+		n = 400000
+	}
 	xs := make([]float64, n)
 	var fs fails
 	if res := vk.Call(func() {
